@@ -15,7 +15,9 @@ main one.  Its first animation is started before the main display's animate call
 ticked (with the same time) just before the main display's ticks number k.  "cross" lists every operation on one of the
 two displays across which the buffer or the animation states of the OTHER one changed.
 A case with "hist": [op, ...] is a whole call history on ONE display (registry bookkeeping): op = ["animate", style, row,
-text, speed, loop] | ["tick", now] | ["line", row, text] | ["clear"] | ["begin"].  Result {"new", "hist": [per op
+text, speed, loop] | ["tick", now] | ["line", row, text] | ["clear"] | ["begin"] | (outside the model's vocabulary) ["write", col,
+row, text] | ["message", top, bottom] | ["progress", row, value, max] | ["display", on] | ["backlight", on] | ["brightness", n] |
+["glyph", slot, bitmap].  Result {"new", "hist": [per op
 {"status", "events", "sleeps", "started": j | None, "snap": {"buffer", "keys", "states", "who": [j | -1, ...]},
  "tracked": [[registered?, [12 fields]], ...]}]}: every state object a successful animate call added to lcd.animations is
 remembered (by identity) as tracked animation j; "who" names the tracked animation behind each registered value, "tracked"
@@ -212,6 +214,22 @@ def run_hist(c):
                 lcd.clear()
             elif op[0] == "begin":
                 lcd.begin()
+            elif op[0] == "write":
+                lcd.write(op[1], op[2], op[3])
+            elif op[0] == "message":
+                lcd.message(op[1], op[2])
+            elif op[0] == "progress":
+                lcd.progress(op[1], op[2], op[3])
+            elif op[0] == "display":
+                lcd.display(op[1])
+            elif op[0] == "backlight":
+                lcd.backlight(op[1])
+            elif op[0] == "brightness":
+                lcd.brightness(op[1])
+            elif op[0] == "glyph":
+                lcd.glyph(op[1], op[2])
+            elif op[0] == "tick_none":
+                lcd.tick()
             st = "ok"
         except Exception as e:  # noqa
             st = kind(e)
